@@ -17,14 +17,17 @@ More == ln <= Len(Tr)
 
 TInit == /\ tid \in 1..Len(Traces) /\ ln = 1 /\ now = 0
          /\ s = [ ready |-> <<>>, todo |-> 0, timers |-> {}, outs |-> <<>>, ev |-> 0, idle |-> 0,
-                  sessIn |-> <<>>, peer |-> <<>>, watch |-> Cfg.watch0, wkeys |-> UNION Range(Cfg.watch0) \ {"ALL"},
+                  sessIn |-> <<>>, sessOut |-> <<>>, peer |-> <<>>, watch |-> Cfg.watch0, wkeys |-> UNION Range(Cfg.watch0) \ {"ALL"},
                   store |-> [found |-> {}, ts |-> {}] ]
 
 \* ---------------------------------------------------------------- comparing observables
 \* the observable content of an output event (what a trace line is compared on)
+EntryKey(en) == <<en.ty, en.svc, en.ttl>>
 Key(o) ==
   CASE o.op \in {"offered", "stopped"} -> <<o.op, o.lst, o.svc, o.src>>
     [] o.op \in {"new", "gone"} -> <<o.op, o.a, o.key>>
+    [] o.op = "reboot" -> <<o.op, o.comp, o.a>>
+    [] o.op = "tx" -> <<o.op, o.dst, o.sid, o.rb, [i \in DOMAIN o.es |-> EntryKey(o.es[i])]>>
     [] OTHER -> <<o.op>>
 BagEq(a, b) ==
   /\ Len(a) = Len(b)
